@@ -1,125 +1,85 @@
 (* Tie_C07.v — translator tie (T) for C07.  Compiled on every run of ./check C07 against
    GTgen.SetGen, the Gallina file regenerated from set/set.go of the current tree by
-   harness/cmd/xlate_set.  Each lemma states that a regenerated function equals the hand-written
-   model (SetModel.v) the theorems of Props/C07.v are about.  [wfn s] is the representation
-   invariant "a nil map has no keys" (part of SetProofs.wf, preserved by every operation). *)
+   harness/cmd/xlate_set.  Each lemma states, for ALL arguments, that a regenerated function
+   equals the hand-written model (SetModel.v) the theorems of Props/C07.v are about.  [wfn s] is
+   the representation invariant "a nil map has no keys" (part of SetProofs.wf, preserved by
+   every operation).
+
+   The proofs do not depend on the shape of the regenerated terms: the model is first restated
+   over the map primitives (SetTieLemmas.v, proved once), then loops are related by a simulation
+   whose state map is found among the tuple re-arrangements, conditions are split on their
+   boolean atoms, emptiness guards are decided by cases on the key list, early-return loops go by
+   induction (Base/SetLoopTie.v).  Renamed locals, helper methods (contains, allocIfNil, …), a map
+   header copied into a local, index loops, `f = f || c` for `if !f { if c { f = true } }`,
+   early-continue, `len(s) < 1` for `len(s) == 0`, Slice() through append … leave them intact;
+   an edit that changes what a function computes breaks this file.                           *)
 From Coq Require Import List Bool Arith.
 Import ListNotations.
-From GT Require Import SetModel SetGenPrims.
+From GT Require Import Base.SetLoopTie SetModel SetGenPrims SetTieLemmas.
 From GTgen Require Import SetGen.
 
 Section Tie.
   Variable T : Type.
   Variable eqb : T -> T -> bool.
-  Definition wfn (s : sset T) : Prop := is_nil s = true -> elems s = [].
+  Variable zero : T.
 
-  Lemma put_fold items : forall m,
-    fold_left (fun m x => set_put eqb m x) items m
-    = {| is_nil := is_nil m; elems := fold_left (fun l x => insert eqb x l) items (elems m) |}.
+  (* Slice(): nil for the empty set, otherwise the keys in the order the runtime ranges over the
+     map — whether a pre-sized slice is filled through a running index or an empty one appended
+     to (tactic slice_goal of SetTieLemmas.v) *)
+  Lemma tie_Slice : forall s, gen_Slice T eqb zero s = s_slice s.
+  Proof. intros s. gen_unfold; cbv zeta. slice_goal T zero s. Qed.
+
+  (* unfold the regenerated function: helpers first, then replace calls of Slice by the model's
+     (a method may be written through another one: RemoveSet as Remove(items.Slice()...)), then
+     everything else; decide tests on literal sets (`var s Set[T]` is nil, make(...) is not) *)
+  Ltac prep :=
+    intros; gen_unfold_helpers;
+    repeat (progress (rewrite ?tie_Slice, ?sl_items_slice); gen_unfold_helpers);
+    gen_unfold; rewrite ?tie_Slice, ?sl_items_slice;
+    cbv zeta; cbn [set_is_nil is_nil s_nil mk_empty]; cbv beta iota zeta.
+  (* decide every emptiness guard: cases on the key list of the set *)
+  Ltac by_emptiness s :=
+    unfold set_len; destruct (elems s) eqn:?; cbn [length Nat.eqb Nat.ltb Nat.leb negb];
+    cbv beta iota zeta.
+  Ltac canon_steps := unfold put_step, add_step', rem_step', alloc.
+  Ltac add_tie s :=
+    prep; canon_steps; unfold set_is_nil, set_keys;
+    destruct (is_nil s) eqn:?; cbv beta iota zeta; fold_tie_g.
+  Ltac remove_tie s :=
+    prep; canon_steps; unfold set_keys; by_emptiness s; first [ reflexivity | fold_tie_g ].
+
+  Lemma tie_Add : forall s items, wfn s -> gen_Add T eqb zero s items = s_add eqb s items.
+  Proof. intros s items Hw. rewrite (s_add_canon T eqb s items Hw). unfold gen_Add. add_tie s. Qed.
+
+  Lemma tie_AddSet : forall s t, wfn s -> gen_AddSet T eqb zero s t = s_addset eqb s (elems t).
   Proof.
-    induction items as [|x xs IH]; intros m; cbn [fold_left].
-    - destruct m; reflexivity.
-    - rewrite IH. reflexivity.
+    intros s t Hw. unfold s_addset. rewrite (s_add_canon T eqb s (elems t) Hw). unfold gen_AddSet.
+    add_tie s.
   Qed.
 
-  Lemma tie_Make : forall items, gen_Make T eqb items = s_make eqb items.
-  Proof. intros items. unfold gen_Make, s_make. cbv zeta. rewrite put_fold. reflexivity. Qed.
+  Lemma tie_Make : forall items, gen_Make T eqb zero items = s_make eqb items.
+  Proof. intros items. rewrite s_make_canon. unfold gen_Make. prep. canon_steps. fold_tie_g. Qed.
 
-  Lemma add_flag (a mm : bool) :
-    (if negb a then (if negb mm then true else a) else a) = a || negb mm.
-  Proof. destruct a, mm; reflexivity. Qed.
+  Lemma tie_Remove : forall s items, gen_Remove T eqb zero s items = s_remove eqb s items.
+  Proof. intros s items. rewrite s_remove_canon. unfold gen_Remove. remove_tie s. Qed.
 
-  Lemma rem_flag (a mm : bool) :
-    (if negb a then (if mm then true else a) else a) = a || mm.
-  Proof. destruct a, mm; reflexivity. Qed.
-
-  Lemma tie_Add_aux items : forall m a,
-    is_nil m = false ->
-    (let '(a', m') := fold_left (fun '(v_added, v_s) v_item =>
-        (if negb v_added
-         then if negb (set_has eqb v_s v_item) then true else v_added
-         else v_added, set_put eqb v_s v_item)) items (a, m) in (m', a'))
-    = (let '(l, ad) := fold_left (add_step eqb) items (elems m, a) in
-       ({| is_nil := false; elems := l |}, ad)).
+  Lemma tie_RemoveSet : forall s t, gen_RemoveSet T eqb zero s t = s_removeset eqb s (elems t).
   Proof.
-    induction items as [|x xs IH]; intros m a Hn; cbn [fold_left].
-    - destruct m as [n l]. simpl in *. subst. reflexivity.
-    - rewrite IH by exact Hn. unfold add_step at 2. cbn [set_put elems set_has].
-      rewrite add_flag. reflexivity.
+    intros s t. unfold s_removeset. rewrite s_remove_canon. unfold gen_RemoveSet. remove_tie s.
   Qed.
 
-  Lemma tie_Add : forall s items, wfn s -> gen_Add T eqb s items = s_add eqb s items.
+  Lemma tie_Has : forall s items, gen_Has T eqb zero s items = s_has eqb s items.
   Proof.
-    intros s items Hw. unfold gen_Add, s_add. cbv zeta. unfold set_is_nil.
-    destruct (is_nil s) eqn:En.
-    - rewrite (tie_Add_aux items mk_empty false eq_refl). rewrite (Hw En). reflexivity.
-    - rewrite (tie_Add_aux items s false En). reflexivity.
+    intros s items. rewrite s_has_canon. unfold gen_Has. prep.
+    by_emptiness s; [reflexivity | loop_tie_with ltac:(cbn [loop_ret forallb])].
   Qed.
 
-  Lemma tie_AddSet : forall s t, wfn s -> gen_AddSet T eqb s t = s_addset eqb s (elems t).
+  Lemma tie_HasAny : forall s items, gen_HasAny T eqb zero s items = s_hasany eqb s items.
   Proof.
-    intros s t Hw. unfold gen_AddSet, s_addset, s_add, set_keys. cbv zeta. unfold set_is_nil.
-    destruct (is_nil s) eqn:En.
-    - rewrite (tie_Add_aux (elems t) mk_empty false eq_refl). rewrite (Hw En). reflexivity.
-    - rewrite (tie_Add_aux (elems t) s false En). reflexivity.
-  Qed.
-
-  Lemma tie_Remove_aux items : forall m a,
-    (let '(a', m') := fold_left (fun '(v_removed, v_s) v_item =>
-        (if negb v_removed
-         then if set_has eqb v_s v_item then true else v_removed
-         else v_removed, set_del eqb v_s v_item)) items (a, m) in (m', a'))
-    = (let '(l, r) := fold_left (rem_step eqb) items (elems m, a) in
-       ({| is_nil := is_nil m; elems := l |}, r)).
-  Proof.
-    induction items as [|x xs IH]; intros m a; cbn [fold_left].
-    - destruct m; reflexivity.
-    - rewrite IH. unfold rem_step at 2. cbn [set_del elems is_nil set_has].
-      rewrite rem_flag. reflexivity.
-  Qed.
-
-  Lemma tie_Remove : forall s items, gen_Remove T eqb s items = s_remove eqb s items.
-  Proof.
-    intros s items. unfold gen_Remove, s_remove, set_len. cbv zeta.
-    destruct (Nat.eqb (length (elems s)) 0); [reflexivity|]. apply tie_Remove_aux.
-  Qed.
-
-  Lemma tie_RemoveSet : forall s t, gen_RemoveSet T eqb s t = s_removeset eqb s (elems t).
-  Proof.
-    intros s t. unfold gen_RemoveSet, s_removeset, s_remove, set_len, set_keys. cbv zeta.
-    destruct (Nat.eqb (length (elems s)) 0); [reflexivity|]. apply tie_Remove_aux.
-  Qed.
-
-  Lemma tie_Has : forall s items, gen_Has T eqb s items = s_has eqb s items.
-  Proof.
-    intros s items. unfold gen_Has, s_has, set_len.
-    destruct (Nat.eqb (length (elems s)) 0); [reflexivity|].
-    match goal with |- context [fold_left ?F _ _] => set (FF := F) end.
-    assert (Hsome : forall fl r, fold_left FF fl (tt, Some r) = (tt, Some r)).
-    { induction fl as [|f fs IH]; intros r; [reflexivity|]. cbn [fold_left]. apply IH. }
-    assert (H : forall fl, fold_left FF fl (tt, None)
-               = (tt, if forallb (fun x => memb eqb x (elems s)) fl then None else Some false)).
-    { induction fl as [|f fs IH]; [reflexivity|]. cbn [fold_left forallb].
-      unfold FF at 2. cbv beta iota zeta. unfold set_has.
-      destruct (memb eqb f (elems s)); cbn [negb andb]; [apply IH | apply Hsome]. }
-    rewrite H. destruct (forallb _ items); reflexivity.
-  Qed.
-
-  Lemma tie_HasAny : forall s items, gen_HasAny T eqb s items = s_hasany eqb s items.
-  Proof.
-    intros s items. unfold gen_HasAny, s_hasany, set_len.
-    destruct (Nat.eqb (length (elems s)) 0); [reflexivity|].
-    match goal with |- context [fold_left ?F _ _] => set (FF := F) end.
-    assert (Hsome : forall fl r, fold_left FF fl (tt, Some r) = (tt, Some r)).
-    { induction fl as [|f fs IH]; intros r; [reflexivity|]. cbn [fold_left]. apply IH. }
-    assert (H : forall fl, fold_left FF fl (tt, None)
-               = (tt, if existsb (fun x => memb eqb x (elems s)) fl then Some true else None)).
-    { induction fl as [|f fs IH]; [reflexivity|]. cbn [fold_left existsb].
-      unfold FF at 2. cbv beta iota zeta. unfold set_has.
-      destruct (memb eqb f (elems s)); cbn [orb]; [apply Hsome | apply IH]. }
-    rewrite H. destruct (existsb _ items); reflexivity.
+    intros s items. rewrite s_hasany_canon. unfold gen_HasAny. prep.
+    by_emptiness s; [reflexivity | loop_tie_with ltac:(cbn [loop_ret existsb])].
   Qed.
 End Tie.
 
-Definition TIE_C07_OK := (tie_Make, tie_Add, tie_AddSet, tie_Remove, tie_RemoveSet, tie_Has, tie_HasAny).
+Definition TIE_C07_OK := (tie_Make, tie_Slice, tie_Add, tie_AddSet, tie_Remove, tie_RemoveSet, tie_Has, tie_HasAny).
 Print Assumptions TIE_C07_OK.
